@@ -924,6 +924,19 @@ func runC09(r *Run, rng *Rng, tier string) error {
 	for i := 0; i < nSearch; i++ {
 		g := rng.Fork()
 		runBuild09Case(r, genTree09(g, 1+g.Intn(3), true), false)
+		// implementation-level family outside the model (harness/c09_extra.go)
+		if i%6 == 0 {
+			patchBuild09(r, g.Fork())
+		}
+	}
+	// custom-schema builds last: each of them resets the process-wide OpenAPI state before and after itself, which
+	// would make every later build that needs the built-in schema parse it again
+	nSchema := 36
+	if tier == "thorough" {
+		nSchema = 400
+	}
+	for i := 0; i < nSchema; i++ {
+		schemaBuild09(r, rng.Fork())
 	}
 	return nil
 }
